@@ -161,6 +161,19 @@ def check_alvec(o):
     v3 = a2.as_vector()
     if not L.close(v3, v, 1e-9):
         bad.append(("alignment from_vector(v).as_vector() != v", {"got": v3, "want": v}, None))
+    # ... whatever the alignment was fitted to before: built between point sets that are NOT related by a member of the family
+    # (the normal case - a residual remains), a parameter update still leaves target == the source moved by the new parameters
+    wob = np.array([[0.3, -0.2, 0.1], [-0.25, 0.15, -0.3], [0.1, 0.35, 0.2], [-0.15, -0.3, 0.25], [0.2, 0.1, -0.15]])[:len(src), :src.shape[1]]
+    n_ = getattr(mt, "Alignment" + cls)(PointCloud(src), PointCloud(tgt0 + wob))
+    h_n, t_n = n_.h_matrix.copy(), n_.target.points.copy()
+    n2 = n_.from_vector(v)
+    if type(n2) is not type(n_) or not L.close(n2.h_matrix, M2, 1e-9):
+        bad.append(("from_vector on an alignment with a residual is not the transform the vector describes", {"got": getattr(n2, "h_matrix", None), "want": M2}, None))
+    elif not L.close(n2.target.points, tgt2, 1e-9) or not L.close(n2.target.points, n2.aligned_source().points, 1e-9):
+        bad.append(("from_vector on an alignment with a residual: the new target is not the source moved by the new parameters",
+                    {"got": n2.target.points, "want": tgt2}, None))
+    if not L.close(n_.h_matrix, h_n, 0) or not L.close(n_.target.points, t_n, 0):
+        bad.append(("from_vector changed the receiver alignment (built with a residual)", {}, None))
     # constructor options steer the FIT; a parameter vector means the same transform whatever they are
     opts = {"Similarity": [dict(rotation=False), dict(allow_mirror=True), dict(rotation=False, allow_mirror=True)], "Rotation": [dict(allow_mirror=True)]}.get(cls, [])
     for kw in opts:
